@@ -172,7 +172,9 @@ func Header(t *rapid.T) model.Header {
 		MsgID:    rapid.Uint32().Draw(t, "msgid"),
 	}
 	if rapid.IntRange(0, 5).Draw(t, "hdr.edges") == 5 {
-		h.ISPI = rapid.SampledFrom([]uint64{0, 1, 1<<63 - 1, 1 << 63, 1<<64 - 1, h.ISPI}).Draw(t, "ispi.edge")
+		// ... and SPIs whose first octets are what a transport shim looks for at the start of a datagram: the RFC 8229 stream
+		// prefix "IKETCP", the four zero octets of the non-ESP marker (RFC 3948), the 0xff of a NAT keep-alive
+		h.ISPI = rapid.SampledFrom([]uint64{0, 1, 1<<63 - 1, 1 << 63, 1<<64 - 1, h.ISPI, 0x494b455443500000 | h.ISPI&0xffff, h.ISPI & 0xffffffff, 0xff00000000000000 | h.ISPI>>8}).Draw(t, "ispi.edge")
 		h.RSPI = rapid.SampledFrom([]uint64{0, 1, 1<<64 - 1, h.ISPI, h.RSPI}).Draw(t, "rspi.edge")
 		h.MsgID = rapid.SampledFrom([]uint32{0, 1, 0x7fffffff, 0x80000000, 0xffffffff, h.MsgID}).Draw(t, "msgid.edge")
 		h.Exchange = rapid.SampledFrom([]uint8{0, 33, 34, 37, 38, 255, h.Exchange}).Draw(t, "exch.edge")
@@ -190,12 +192,95 @@ func Header(t *rapid.T) model.Header {
 func Message(t *rapid.T, o Opts) model.Message {
 	m := model.Message{Header: Header(t)}
 	m.Payloads = Payloads(t, o)
+	if rapid.IntRange(0, 7).Draw(t, "msg.relate") == 7 {
+		relate(t, &m)
+	}
 	return m
+}
+
+// relate makes a field of one payload EQUAL to a field elsewhere in the message, as happens in genuine exchanges: a proposal
+// or notification carrying the IKE SPI of the header, the KE group naming the group of a proposal, the header of an initial
+// exchange, a nonce equal to the key exchange value.
+func relate(t *rapid.T, m *model.Message) {
+	spi := func() model.Bytes {
+		v := m.Header.ISPI
+		if rapid.Bool().Draw(t, "rel.rspi") {
+			v = m.Header.RSPI
+		}
+		out := make(model.Bytes, 8)
+		for i := 0; i < 8; i++ {
+			out[i] = byte(v >> (56 - 8*uint(i)))
+		}
+		return out
+	}
+	if rapid.Bool().Draw(t, "rel.init") {
+		m.Header.Exchange = rapid.SampledFrom([]uint8{34, 34, 36}).Draw(t, "rel.exch")
+		m.Header.Major, m.Header.Minor = 2, 0
+		if rapid.Bool().Draw(t, "rel.nonzero") && m.Header.ISPI == 0 {
+			m.Header.ISPI = 0x0102030405060708
+		}
+	}
+	var group uint16
+	haveGroup := false
+	for i := range m.Payloads {
+		p := &m.Payloads[i]
+		switch {
+		case p.SA != nil:
+			if model.PayloadSize(*p) > 60000 {
+				continue // no room left for longer SPIs
+			}
+			for j := range p.SA.Proposals {
+				pr := &p.SA.Proposals[j]
+				if rapid.IntRange(0, 2).Draw(t, "rel.propspi") != 0 {
+					pr.SPI = spi()
+					pr.Protocol = rapid.SampledFrom([]uint8{1, 1, 1, 2, 3}).Draw(t, "rel.proto")
+				}
+				if j > 0 && rapid.IntRange(0, 2).Draw(t, "rel.propsame") == 0 {
+					// the same number, protocol and SPI as the proposal before it
+					q := p.SA.Proposals[j-1]
+					pr.Number, pr.Protocol, pr.SPI = q.Number, q.Protocol, append(model.Bytes(nil), q.SPI...)
+				}
+				for _, tr := range pr.Transforms {
+					if tr.Type == 4 {
+						group, haveGroup = tr.ID, true
+					}
+				}
+			}
+		case p.Notify != nil && model.PayloadSize(*p) < 60000 && rapid.Bool().Draw(t, "rel.notifyspi"):
+			p.Notify.SPI = spi()
+			p.Notify.Protocol = 1
+		case p.KE != nil && haveGroup && rapid.Bool().Draw(t, "rel.kegroup"):
+			p.KE.Group = group
+		}
+	}
 }
 
 func Payloads(t *rapid.T, o Opts) []model.Payload {
 	if o.MaxPayloads == 0 {
 		o.MaxPayloads = 12
+		if o.OnlyKinds == nil && (o.MaxChain == 0 || o.MaxChain >= 62000) && rapid.IntRange(0, 39).Draw(t, "manypayloads") == 39 {
+			// a long chain of small payloads (no limit on their number exists in the format)
+			n := rapid.SampledFrom([]int{64, 127, 128, 129, 200, 255, 256, 257, 300}).Draw(t, "npayloads.many")
+			small := []string{model.KNonce, model.KVendor, model.KNotify, model.KDelete, model.KKE, model.KIDi, model.KCP}
+			var ps []model.Payload
+			for i := 0; i < n; i++ {
+				k := small[rapid.IntRange(0, len(small)-1).Draw(t, "kind.many")]
+				var p model.Payload
+				switch k {
+				case model.KNonce, model.KVendor:
+					p = model.Payload{Kind: k, Data: model.Bytes{byte(i), byte(i >> 8), 0x5a}}
+				case model.KNotify:
+					p = model.Payload{Kind: k, Notify: &model.Notify{Protocol: 1, Type: uint16(16384 + i%60), Data: model.Bytes{byte(i)}}}
+				default:
+					p = Payload(t, k, true)
+					if model.PayloadSize(p) > 200 {
+						p = model.Payload{Kind: model.KNonce, Data: model.Bytes{byte(i)}}
+					}
+				}
+				ps = append(ps, p)
+			}
+			return ps
+		}
 	}
 	kinds := o.OnlyKinds
 	if kinds == nil {
@@ -348,11 +433,19 @@ func Payload(t *rapid.T, k string, small bool) model.Payload {
 		p.SA = SA(t, small)
 	case model.KKE:
 		p.KE = &model.KE{Group: u16b(t, "ke.group", 2, 14, 0, 65535), Data: BytesLen(t, "ke.data", 1, 600, 1, 128, 256)}
+		if rapid.IntRange(0, 5).Draw(t, "ke.shaped") == 5 {
+			p.KE.Group, p.KE.Data = KEShaped(t)
+		}
 	case model.KIDi, model.KIDr:
 		p.ID = &model.ID{Type: u8(t, "id.type"), Data: BytesLen(t, "id.data", 1, 300, 1, 4, 16)}
 		if rapid.IntRange(0, 4).Draw(t, "id.text") == 4 {
 			// identities that are text (mixed case, trailing dot, NUL) under the ID types that carry text - and under any other
 			p.ID.Data = model.Bytes(rapid.SampledFrom([]string{"Host.Example.ORG", "User@Example.ORG", "gw.example.org.", "UPPER", "a\x00b", "xn--Bcher-kva.example"}).Draw(t, "id.textdata"))
+			if rapid.Bool().Draw(t, "id.3gpp") {
+				if id := Identity(t, "id.identity"); id != "" {
+					p.ID.Data = model.Bytes(id)
+				}
+			}
 			if rapid.Bool().Draw(t, "id.texttype") {
 				p.ID.Type = rapid.SampledFrom([]uint8{2, 3, 11}).Draw(t, "id.texttype2")
 			}
@@ -364,6 +457,11 @@ func Payload(t *rapid.T, k string, small bool) model.Payload {
 			p.Cert.Data = model.Bytes("-----BEGIN CERTIFICATE-----\nMIIBszCCAVmgAwIBAgIUQ0FGRUJBQkU=\n-----END CERTIFICATE-----\n")
 			if rapid.Bool().Draw(t, "cert.x509") {
 				p.Cert.Encoding = 4
+			}
+		} else if rapid.IntRange(0, 5).Draw(t, "cert.der") == 5 {
+			p.Cert.Data = DERLike(t, "cert.der")
+			if rapid.IntRange(0, 3).Draw(t, "cert.x509") != 0 {
+				p.Cert.Encoding = rapid.SampledFrom([]uint8{4, 4, 4, 1, 7, 12, 13}).Draw(t, "cert.derenc")
 			}
 		}
 	case model.KAUTH:
@@ -488,9 +586,24 @@ func TS(t *rapid.T, small bool) *model.TS {
 		if i > 0 && rapid.IntRange(0, 5).Draw(t, "sel.related") == 5 {
 			prev := ts.Selectors[i-1]
 			sel = prev
-			if rapid.Bool().Draw(t, "sel.adjacent") {
+			switch rapid.IntRange(0, 3).Draw(t, "sel.relation") {
+			case 0:
 				sel.StartAddr = addrSucc(prev.EndAddr)
 				sel.EndAddr = addrSucc(addrSucc(sel.StartAddr))
+			case 1:
+				// ONE packet's selector inside a selector listed earlier (RFC 7296 2.9: the first selector of a TSi / TSr may be
+				// the packet that triggered the negotiation): single address, single port, a definite protocol
+				first := ts.Selectors[rapid.IntRange(0, i-1).Draw(t, "sel.container")]
+				sel = first
+				sel.EndAddr = append(model.Bytes(nil), sel.StartAddr...)
+				if rapid.Bool().Draw(t, "sel.inner") {
+					sel.StartAddr = append(model.Bytes(nil), first.EndAddr...)
+					sel.EndAddr = append(model.Bytes(nil), first.EndAddr...)
+				}
+				sel.EndPort = sel.StartPort
+				if sel.Protocol == 0 || rapid.Bool().Draw(t, "sel.proto17") {
+					sel.Protocol = rapid.SampledFrom([]uint8{1, 6, 17, 58}).Draw(t, "sel.protoval")
+				}
 			}
 		}
 		ts.Selectors = append(ts.Selectors, sel)
@@ -606,6 +719,14 @@ func Addr(t *rapid.T, label string, n int) model.Bytes {
 		v4 = []byte{224, 0, 0, 1}
 	case 4:
 		v4[0] = 10
+	case 5, 6, 7, 8:
+		if n == 4 {
+			// the special-purpose IPv4 blocks (RFC 6890): link-local, private, shared, documentation, benchmarking, 6to4 relay,
+			// multicast, reserved, "this network"
+			pre := rapid.SampledFrom([][]byte{{169, 254}, {192, 168}, {172, 16}, {172, 31}, {100, 64}, {192, 0, 2}, {198, 18}, {198, 51, 100},
+				{203, 0, 113}, {192, 88, 99}, {192, 0, 0}, {239, 255}, {240}, {0}, {127}, {169, 254, 169, 254}, {255, 255, 255}}).Draw(t, label+".block")
+			copy(v4, pre)
+		}
 	}
 	if n == 4 {
 		return append(model.Bytes(nil), v4...)
@@ -677,6 +798,11 @@ func EAP(t *rapid.T, domain bool) model.EAP {
 		// data lengths around the places where the 16-bit packet length crosses an octet boundary (total = 5 + data)
 		e.Kind = model.EIdentity
 		e.Data = BytesLen(t, "eap.data", 1, 1100, 1, 250, 251, 252, 255, 505, 506, 507, 508, 761, 762, 1018, 1019, 1020)
+		if rapid.IntRange(0, 5).Draw(t, "eap.identity") == 5 {
+			if id := Identity(t, "eap.identity"); id != "" {
+				e.Data = model.Bytes(id)
+			}
+		}
 	case 2:
 		e.Kind = model.ENotification
 		e.Data = BytesLen(t, "eap.data", 1, 1100, 1, 250, 251, 252, 506, 507)
@@ -786,8 +912,21 @@ func AkaValue(t *rapid.T, ty uint8) model.Bytes {
 		if n >= 252 && excl("aka-kdfinput252") {
 			n = 248
 		}
+		if rapid.IntRange(0, 4).Draw(t, "aka.kdfinput.name") == 4 && !excl("aka-padded") && !excl("aka-kdfinput252") {
+			return model.Bytes(NetworkName(t))
+		}
 		return Fill(t, "aka.kdfinput", n)
 	case model.AT_CHECKCODE:
+		if rapid.IntRange(0, 4).Draw(t, "aka.checkcode.known") == 4 {
+			// the digests of NO octets (what a checkcode over an empty set of messages would be), and of one zero octet
+			return unhex(rapid.SampledFrom([]string{
+				"da39a3ee5e6b4b0d3255bfef95601890afd80709",
+				"e3b0c44298fc1c149afbf4c8996fb92427ae41e4649b934ca495991b7852b855",
+				"5ba93c9db0cff93f52b521d7420e43f6eda2784f",
+				"6e340b9cffb37a989ca544e6bb780a2c78901d3fb33738768511a30617afa01d",
+				"0000000000000000000000000000000000000000",
+			}).Draw(t, "aka.checkcode.digest"))
+		}
 		return Fill(t, "aka.checkcode", rapid.SampledFrom([]int{0, 20, 32}).Draw(t, "aka.cclen"))
 	}
 	panic("gen: aka type")
@@ -812,4 +951,126 @@ func minInt(a, b int) int {
 		return a
 	}
 	return b
+}
+
+// KEShape is a key exchange value with the size (and format) that goes with its group.
+type KEShape struct {
+	Group uint16
+	Data  model.Bytes
+}
+
+// KEShapes enumerates, for every group of the IANA registry with a fixed value size (MODP groups at their modulus length, ECP
+// groups as x|y, the Curve groups at 32 / 56 octets), the value in the formats somebody might send or look for: exactly the
+// size, as a SEC1 uncompressed point (0x04 in front), with a zero octet in front, with the first four octets of the payload
+// body (group, RESERVED) repeated in front, one octet short, and exactly the size but starting 0x04 / 0x00.
+func KEShapes() []KEShape {
+	sizes := [][2]int{{1, 96}, {2, 128}, {5, 192}, {14, 256}, {15, 384}, {16, 512}, {17, 768}, {18, 1024}, {19, 64}, {20, 96}, {21, 132},
+		{22, 128}, {23, 256}, {24, 256}, {25, 48}, {26, 56}, {27, 56}, {28, 64}, {29, 96}, {30, 128}, {31, 32}, {32, 56}, {33, 64}, {34, 128}}
+	var out []KEShape
+	for _, gs := range sizes {
+		g, n := uint16(gs[0]), gs[1]
+		fill := func(k int) model.Bytes {
+			b := make(model.Bytes, k)
+			for i := range b {
+				b[i] = byte(i*7+int(g)) | 1
+			}
+			return b
+		}
+		lead := func(pre model.Bytes, k int) model.Bytes { return append(append(model.Bytes(nil), pre...), fill(k)...) }
+		out = append(out, KEShape{g, fill(n)}, KEShape{g, lead(model.Bytes{4}, n)}, KEShape{g, lead(model.Bytes{0}, n)},
+			KEShape{g, lead(model.Bytes{byte(g >> 8), byte(g), 0, 0}, n)}, KEShape{g, fill(n - 1)}, KEShape{g, lead(model.Bytes{4}, n-1)}, KEShape{g, lead(model.Bytes{0}, n-1)},
+			KEShape{g, lead(model.Bytes{2}, n/2)}, KEShape{g, lead(model.Bytes{3}, n/2)}) // SEC1 compressed points
+	}
+	return out
+}
+
+// KEShaped draws one of KEShapes with the octets behind the first four drawn anew.
+func KEShaped(t *rapid.T) (uint16, model.Bytes) {
+	sh := rapid.SampledFrom(KEShapes()).Draw(t, "ke.shape")
+	d := append(model.Bytes(nil), sh.Data...)
+	if len(d) > 4 {
+		copy(d[4:], Fill(t, "ke.shape.data", len(d)-4))
+	}
+	return sh.Group, d
+}
+
+// DERLike draws octets that begin like a DER SEQUENCE (30 82 LL LL / 30 81 LL / 30 LL) whose declared length is exactly the
+// rest, shorter than the rest (octets behind the sequence) or longer than the rest.
+func DERLike(t *rapid.T, label string) model.Bytes {
+	body := rapid.SliceOfN(rapid.Byte(), 0, 400).Draw(t, label+".body")
+	decl := len(body) + rapid.SampledFrom([]int{0, 0, -1, -7, 1, 9, 300, -len(body)}).Draw(t, label+".delta")
+	if decl < 0 {
+		decl = 0
+	}
+	var out model.Bytes
+	switch form := rapid.IntRange(0, 3).Draw(t, label+".form"); {
+	case form <= 1 || decl > 255:
+		out = model.Bytes{0x30, 0x82, byte(decl >> 8), byte(decl)}
+	case form == 2 || decl > 127:
+		out = model.Bytes{0x30, 0x81, byte(decl)}
+	default:
+		out = model.Bytes{0x30, byte(decl)}
+	}
+	return append(out, body...)
+}
+
+// NetworkName draws an AT_KDF_INPUT value as it occurs: a 3GPP serving network name (TS 24.501 9.12.1, with a three-digit or a
+// two-digit MNC, with or without NID), the names of RFC 5448 / 9048 examples, and near misses of them.
+func NetworkName(t *rapid.T) string {
+	digits := func(label string, n int) string {
+		b := make([]byte, n)
+		for i := range b {
+			b[i] = byte('0' + rapid.IntRange(0, 9).Draw(t, label))
+		}
+		return string(b)
+	}
+	switch rapid.IntRange(0, 7).Draw(t, "nn.kind") {
+	case 0:
+		return "5G:mnc" + digits("nn.mnc", 3) + ".mcc" + digits("nn.mcc", 3) + ".3gppnetwork.org"
+	case 1:
+		return "5G:mnc" + digits("nn.mnc", 2) + ".mcc" + digits("nn.mcc", 3) + ".3gppnetwork.org"
+	case 2:
+		return "5G:mnc" + digits("nn.mnc", 3) + ".mcc" + digits("nn.mcc", 3) + ".3gppnetwork.org:" + digits("nn.nid", 11)
+	case 3:
+		return "5G:NSWO"
+	case 4:
+		return rapid.SampledFrom([]string{"WLAN", "HRPD", "WIMAX", "ETHERNET", "5G", "5G:", "5g:mnc01.mcc001.3gppnetwork.org", "mnc001.mcc001.3gppnetwork.org"}).Draw(t, "nn.other")
+	case 5:
+		return "5G:mnc" + digits("nn.mnc", rapid.IntRange(0, 4).Draw(t, "nn.nmnc")) + ".mcc" + digits("nn.mcc", rapid.IntRange(0, 4).Draw(t, "nn.nmcc"))
+	case 6:
+		return "5G:mnc" + digits("nn.mnc", 2) + ".mcc" + digits("nn.mcc", 3)
+	}
+	return "5G:mnc0" + digits("nn.mnc", 2) + ".mcc" + digits("nn.mcc", 3) + ".3gppnetwork.org"
+}
+
+// Identity draws an identity string as it occurs in EAP-AKA' and 5G: SUPI / IMSI notations, NAI forms with the leading
+// digit of RFC 4187 / 5448 ('0' AKA, '6' AKA'), SUCI NAIs, anonymous identities - and arbitrary octets.
+func Identity(t *rapid.T, label string) string {
+	digits := func(n int) string {
+		b := make([]byte, n)
+		for i := range b {
+			b[i] = byte('0' + rapid.IntRange(0, 9).Draw(t, label+".digit"))
+		}
+		return string(b)
+	}
+	realm := "@nai.5gc.mnc" + digits(3) + ".mcc" + digits(3) + ".3gppnetwork.org"
+	switch rapid.IntRange(0, 11).Draw(t, label+".kind") {
+	case 0:
+		return "imsi-" + digits(15)
+	case 1:
+		return "imsi-" + digits(rapid.IntRange(0, 16).Draw(t, label+".n"))
+	case 2:
+		return rapid.SampledFrom([]string{"0", "6", "2", "7", "1"}).Draw(t, label+".lead") + digits(15) + realm
+	case 3:
+		return "type0.rid" + digits(2) + ".schid0.userid" + digits(10) + realm
+	case 4:
+		return "anonymous" + realm
+	case 5:
+		return rapid.SampledFrom([]string{"nai-", "suci-0-", "supi-", "IMSI-", "imsi", "imsi-", "gci-", "gli-", "imei-", "imeisv-", "mac-", "eui-"}).Draw(t, label+".prefix") + digits(rapid.IntRange(0, 15).Draw(t, label+".n2"))
+	case 6:
+		return digits(15)
+	case 7:
+		return ""
+	}
+	return string(rapid.SliceOfN(rapid.Byte(), 0, 80).Draw(t, label+".raw"))
 }
